@@ -4,7 +4,7 @@ CONSTANTS
   Member = {"m1", "m2", "m3"}
   Stranger = {"x1"}
   TSet = {2}
-  MaxSig = 10
+  MaxSig = 16
   MaxSerial = 48
   MaxDESet = {2}
   MaxAttSet = {2}
@@ -13,12 +13,12 @@ CONSTANTS
   KSet = {1}
   PreSet = {0}
   PostSet = {0}
-  TransOn = FALSE
+  TransOn = TRUE
   TraceFile = "trace.ndjson"
-  Checked = {"q", "nser", "deN", "tok"}
+  Checked = {"q", "nser", "deN", "tok", "count"}
   Owned = {"SubmitDEs", "ResetDE", "Request", "RequestRollback", "EndBlock.assign"}
 SPECIFICATION TraceSpec
 INVARIANTS TInvC05 TraceBoundOK
-PROPERTIES TAssignFromHead TFifo TQueueStep TEligible TRejectedNoChange TGhostExact
+PROPERTIES TAssignFromHead TFifo TQueueStep TEligible TRejectedNoChange TGhostExact TCreationExact
 POSTCONDITION TraceAccepted
 CHECK_DEADLOCK FALSE
